@@ -107,6 +107,10 @@ pub fn v_fp_zero() -> (r: Fp) ensures fv(r) == 0 { Fp::ZERO }
 #[verifier::external_body]
 pub fn v_fp_one() -> (r: Fp) ensures fv(r) == 1 { Fp::ONE }
 
+/// a `Vec<Fp>` occupies at most isize::MAX bytes (Rust allocation rule; an element is three u64 limbs = 24 bytes)
+pub axiom fn ax_fp_vec_len_bound(v: &Vec<Fp>)
+    ensures v@.len() * 24 <= isize::MAX;
+
 pub broadcast group group_field { ax_fv_range, ax_fp_random_mutref, ax_req_fp_mul, ax_req_fp_add_ref, ax_req_fp_add }
 
 } // mod th_field
